@@ -814,6 +814,60 @@ func (e *symEnv) assign(st *symState, lhs ast.Expr, v Val) {
 }
 
 func (e *symEnv) exec(st *symState, s ast.Stmt) []*symState {
+	// the builtins min and max of two integers: one state per argument that can be the result
+	if mm := e.minMaxCallsIn(s); len(mm) > 0 {
+		states := []*symState{st}
+		for _, call := range mm {
+			key := fmt.Sprintf("$call:%d", call.Pos())
+			var next []*symState
+			for _, cs := range states {
+				if _, done := cs.vars[key]; done {
+					next = append(next, cs)
+					continue
+				}
+				a, b := e.eval(cs, call.Args[0]), e.eval(cs, call.Args[1])
+				if a.Lin == nil || b.Lin == nil {
+					next = append(next, cs)
+					continue
+				}
+				isMin := ast.Unparen(call.Fun).(*ast.Ident).Name == "min"
+				for side := 0; side < 2; side++ {
+					ns := cs.clone()
+					var cond *F
+					var res *Lin
+					switch {
+					case side == 0 && isMin, side == 1 && !isMin:
+						res = a.Lin
+					default:
+						res = b.Lin
+					}
+					if side == 0 {
+						cond = le(a.Lin, b.Lin)
+					} else {
+						cond = lt(b.Lin, a.Lin)
+					}
+					cubes := dnf(cond)
+					if len(cubes) != 1 {
+						continue
+					}
+					ns.cube = append(ns.cube, cubes[0]...)
+					if ok, _ := feasible(append(append(Cube{}, e.base...), ns.cube...)); !ok {
+						continue
+					}
+					ns.vars[key] = Val{Lin: res}
+					next = append(next, ns)
+				}
+			}
+			states = next
+		}
+		if len(states) != 1 || states[0] != st {
+			var out []*symState
+			for _, cs := range states {
+				out = append(out, e.exec(cs, s)...)
+			}
+			return out
+		}
+	}
 	if e.inlinable != nil {
 		if calls := e.inlinableCallsIn(s); len(calls) > 0 {
 			states := []*symState{st}
@@ -832,6 +886,48 @@ func (e *symEnv) exec(st *symState, s ast.Stmt) []*symState {
 		}
 	}
 	return e.execCore(st, s)
+}
+
+// minMaxCallsIn lists the calls of the builtins min/max with two arguments in a statement's own
+// expressions that have not been evaluated yet, innermost first.
+func (e *symEnv) minMaxCallsIn(s ast.Stmt) []*ast.CallExpr {
+	var exprs []ast.Expr
+	switch x := s.(type) {
+	case *ast.ExprStmt:
+		exprs = append(exprs, x.X)
+	case *ast.AssignStmt:
+		exprs = append(exprs, x.Rhs...)
+	case *ast.DeclStmt:
+		if gd, ok := x.Decl.(*ast.GenDecl); ok {
+			for _, sp := range gd.Specs {
+				if vs, ok := sp.(*ast.ValueSpec); ok {
+					exprs = append(exprs, vs.Values...)
+				}
+			}
+		}
+	case *ast.ReturnStmt:
+		exprs = append(exprs, x.Results...)
+	}
+	var out []*ast.CallExpr
+	for _, ex := range exprs {
+		ast.Inspect(ex, func(n ast.Node) bool {
+			if _, isLit := n.(*ast.FuncLit); isLit {
+				return false
+			}
+			if call, ok := n.(*ast.CallExpr); ok && len(call.Args) == 2 {
+				if id, ok := ast.Unparen(call.Fun).(*ast.Ident); ok && (id.Name == "min" || id.Name == "max") {
+					if _, isBuiltin := e.info.Uses[id].(*types.Builtin); isBuiltin {
+						out = append(out, call)
+					}
+				}
+			}
+			return true
+		})
+	}
+	for i, j := 0, len(out)-1; i < j; i, j = i+1, j-1 {
+		out[i], out[j] = out[j], out[i]
+	}
+	return out
 }
 
 // inlinableCallsIn lists the inlinable calls of a statement's own expressions (not of nested
